@@ -208,6 +208,8 @@ YOUTUBE_CHANNEL_NAME_BLACKLIST = {
     "t",
 }
 
+YOUTUBE_RESERVED_PATHS = {"watch", "embed", "v", "video", "shorts", "channel", "user"}
+
 YoutubeVideo = namedtuple("YoutubeVideo", ["id", "playlist"])
 YoutubeUser = namedtuple("YoutubeUser", ["id", "name"])
 YoutubeChannel = namedtuple("YoutubeChannel", ["id", "name"])
@@ -232,7 +234,10 @@ def is_youtube_url(url):
         bool: Whether given url is from Youtube.
 
     """
-    return YOUTUBE_DOMAINS_TRIE.match(url)
+    try:
+        return YOUTUBE_DOMAINS_TRIE.match(url)
+    except ValueError:
+        return False
 
 
 def is_youtube_video_id(value):
@@ -266,10 +271,21 @@ def parse_youtube_url(url, fix_common_mistakes=True):
     list_query = mlist_query.group(1) if mlist_query else None
 
     if m:
-        return YoutubeVideo(id=m.group(1), playlist=list_query)
+        v = m.group(1)
+
+        if fix_common_mistakes:
+            v = v[:11]
+
+        if not is_youtube_video_id(v):
+            return
+
+        return YoutubeVideo(id=v, playlist=list_query)
 
     # Parsing
-    parsed = safe_urlsplit(url)
+    try:
+        parsed = safe_urlsplit(url)
+    except ValueError:
+        return
 
     if not is_youtube_url(parsed):
         return
@@ -279,7 +295,7 @@ def parse_youtube_url(url, fix_common_mistakes=True):
     # youtu.be
     if parsed.hostname and parsed.hostname.endswith("youtu.be"):
 
-        if path.count("/") > 0:
+        if pathsplit(path):
             v = pathsplit(path)[0]
 
             if fix_common_mistakes:
@@ -305,7 +321,7 @@ def parse_youtube_url(url, fix_common_mistakes=True):
             return YoutubeVideo(id=v, playlist=list_query)
 
     # Typical video url
-    if path == "/watch":
+    if path.rstrip("/") == "/watch":
         mv = QUERY_V_RE.search(query)
 
         if mv:
@@ -344,6 +360,9 @@ def parse_youtube_url(url, fix_common_mistakes=True):
 
         user = splitted_path[1]
 
+        if not user:
+            return None
+
         return YoutubeUser(id=None, name=user)
 
     # Channel path?
@@ -357,9 +376,12 @@ def parse_youtube_url(url, fix_common_mistakes=True):
         if len(splitted_path) < 2:
             return None
 
-        name = splitted_path[1]
+        name = splitted_path[1].lstrip("@")
 
-        return YoutubeChannel(id=None, name=name.lstrip("@"))
+        if not name:
+            return None
+
+        return YoutubeChannel(id=None, name=name)
 
     elif path.startswith("/channel/"):
         splitted_path = pathsplit(path)
@@ -368,6 +390,9 @@ def parse_youtube_url(url, fix_common_mistakes=True):
             return None
 
         cid = splitted_path[1]
+
+        if not cid:
+            return None
 
         return YoutubeChannel(id=cid, name=None)
 
@@ -392,10 +417,15 @@ def parse_youtube_url(url, fix_common_mistakes=True):
         if path.count("/") == 1:
             name = path.lstrip("/")
 
-            if name in YOUTUBE_CHANNEL_NAME_BLACKLIST:
+            if name in YOUTUBE_CHANNEL_NAME_BLACKLIST or name in YOUTUBE_RESERVED_PATHS:
                 return
 
-            return YoutubeChannel(id=None, name=name.lstrip("@"))
+            name = name.lstrip("@")
+
+            if not name or name in (".", ".."):
+                return
+
+            return YoutubeChannel(id=None, name=name)
 
 
 def extract_video_id_from_youtube_url(url):
@@ -429,6 +459,13 @@ def normalize_youtube_url(url):
     if isinstance(parsed, YoutubeChannel):
         if parsed.id is not None:
             return YOUTUBE_CHANNEL_ID_URL_TEMPLATE % parsed.id
+
+        # NOTE: the short form is ambiguous for names colliding with reserved paths
+        if (
+            parsed.name in YOUTUBE_CHANNEL_NAME_BLACKLIST
+            or parsed.name in YOUTUBE_RESERVED_PATHS
+        ):
+            return "https://www.youtube.com/c/%s" % parsed.name
 
         return YOUTUBE_CHANNEL_NAME_URL_TEMPLATE % parsed.name
 
